@@ -196,6 +196,8 @@ R_SPAWN = make_seq_rule("R-outline", "tokio::task::spawn_blocking(", "verif_task
 def _keys_for(iter_text, pat):
     if iter_text.replace(" ", "") == "self.keys":
         return ("let mut verif_j: usize = 0;", "verif_j < self.keys.len()", "let %s = &self.keys[verif_j]; verif_j += 1;" % pat)
+    if iter_text.replace(" ", "") == "cmd.keys":
+        return ("let mut verif_j: usize = 0;", "verif_j < cmd.keys.len()", "let %s = &cmd.keys[verif_j]; verif_j += 1;" % pat)
     return None
 
 
@@ -203,8 +205,12 @@ R_FOR_KEYS = make_for_rule("R-for-collect", _keys_for)
 # Verus cannot resolve the auto-trait obligation `TcpStream: Unpin` at the concrete call sites in command/*.rs; the bound plays no role for the shim stream
 R_NO_UNPIN = make_seq_rule("R-unpin", "AsyncWriteExt + Unpin", "AsyncWriteExt")
 R_TRYFROM_CALL = make_seq_rule("R-tryfrom-call", "Command::try_from(frame)", "super::command::verif_command_try_from(frame)")
-CMD_RULES = (R_TRY_INTO_DEL, R_TRY_INTO_GET, R_TRY_INTO_SET, R_SPAWN, R_FOR_KEYS, R_KV_GHOST)
-CMD_USES = "broadcast use super::error::verif_from_Error::axiom_from_Error_Io, super::error::verif_from_Error::axiom_from_Error_AsyncTask;\nuse super::verif_net as net;\nuse super::frame::{self, Frame};\nuse super::connection::Connection;\nuse super::command::{self, Utf8Bytes, ubytes, SCmd, reply, effect, del_fold, ok_text};\nuse std::convert::TryFrom;"
+# `"GET".into()` is `Bytes::from("GET")` by the blanket impl of Into (vstd gives Into::into no meaning for foreign From impls)
+R_INTO_GET = make_seq_rule("R-try-into", 'Self::BulkString("GET".into())', 'Self::BulkString(Bytes::from("GET"))')
+R_INTO_SET = make_seq_rule("R-try-into", 'Self::BulkString("SET".into())', 'Self::BulkString(Bytes::from("SET"))')
+R_INTO_DEL = make_seq_rule("R-try-into", 'Self::BulkString("DEL".into())', 'Self::BulkString(Bytes::from("DEL"))')
+CMD_RULES = (R_INTO_GET, R_INTO_SET, R_INTO_DEL, R_TRY_INTO_DEL, R_TRY_INTO_GET, R_TRY_INTO_SET, R_SPAWN, R_FOR_KEYS, R_KV_GHOST)
+CMD_USES = "broadcast use super::error::verif_from_Error::axiom_from_Error_Io, super::error::verif_from_Error::axiom_from_Error_AsyncTask;\nuse super::verif_net as net;\nuse super::frame::{self, Frame};\nuse super::connection::Connection;\nuse super::command::{self, Utf8Bytes, ubytes, SCmd, reply, effect, del_fold, ok_text, req_frame, lemma_names_bytes, lemma_fview_array, b_del, b_get, b_set};\nuse std::convert::TryFrom;"
 UNITS["cmd"] = {
     "name": "cmd",
     "header": NET_HEADER,
@@ -228,13 +234,13 @@ UNITS["cmd"] = {
             "impl Parser::fn finish", "impl TryFrom<Parser> for Del::fn try_from", "impl TryFrom<Parser> for Get::fn try_from",
             "impl TryFrom<Parser> for Set::fn try_from", "impl AsRef<Bytes> for Utf8Bytes::fn as_ref", "impl TryFrom<Bytes> for Utf8Bytes::fn try_from"]}),
         ("raw", "lemmas/cmd_views_get.rs", "lemma", {"mod": "get"}),
-        ("repo", "src/net/command/get.rs", {"mod": "get", "rules": CMD_RULES, "only": ["struct Get", "impl Get::fn new", "impl Get::fn apply", "impl Get::fn verif_blocking"],
+        ("repo", "src/net/command/get.rs", {"mod": "get", "rules": CMD_RULES, "only": ["struct Get", "impl Get::fn new", "impl Get::fn apply", "impl Get::fn verif_blocking", "impl From<Get> for Frame::fn from"],
                                             "outline": {"impl Get::fn apply": "Result<Option<bytes::Bytes>, KV::Error>"}}),
         ("raw", "lemmas/cmd_views_set.rs", "lemma", {"mod": "set"}),
-        ("repo", "src/net/command/set.rs", {"mod": "set", "rules": CMD_RULES, "only": ["struct Set", "impl Set::fn new", "impl Set::fn apply", "impl Set::fn verif_blocking"],
+        ("repo", "src/net/command/set.rs", {"mod": "set", "rules": CMD_RULES, "only": ["struct Set", "impl Set::fn new", "impl Set::fn apply", "impl Set::fn verif_blocking", "impl From<Set> for Frame::fn from"],
                                             "outline": {"impl Set::fn apply": "Result<(), KV::Error>"}}),
         ("raw", "lemmas/cmd_views_del.rs", "lemma", {"mod": "del"}),
-        ("repo", "src/net/command/del.rs", {"mod": "del", "rules": CMD_RULES, "only": ["struct Del", "impl Del::fn new", "impl Del::fn apply", "impl Del::fn verif_blocking"],
+        ("repo", "src/net/command/del.rs", {"mod": "del", "rules": CMD_RULES, "only": ["struct Del", "impl Del::fn new", "impl Del::fn apply", "impl Del::fn verif_blocking", "impl From<Del> for Frame::fn from"],
                                             "outline": {"impl Del::fn apply": "Result<i64, KV::Error>"}}),
         ("raw", "lemmas/srv_lemmas.rs", "lemma", {"mod": "server"}),
         ("repo", "src/net/server.rs", {"mod": "server", "rules": CMD_RULES + (rule_mut_self, R_TRYFROM_CALL), "select": True, "only": ["struct Handler", "impl Handler<KV>::fn run"]}),
@@ -242,7 +248,7 @@ UNITS["cmd"] = {
     "mod_uses": {"connection": "broadcast use super::error::verif_from_Error::axiom_from_Error_Io;\nuse super::frame::{self, Frame};", "error": "",
                  "command": "use super::frame::{self, Frame};\nuse super::connection::Connection;\nuse super::{del::Del, get::Get, set::Set};\nuse std::convert::TryFrom;\nuse vstd::std_specs::iter::IteratorSpec;",
                  "get": CMD_USES, "set": CMD_USES, "del": CMD_USES,
-                 "server": "use std::sync::Arc;\nuse std::convert::TryFrom;\nuse super::command::{Command, SCmd, spec_command, reply, effect, cview};\nuse super::connection::Connection;\nuse super::frame::{self, Frame};"},
+                 "server": "use std::sync::Arc;\nuse std::convert::TryFrom;\nuse super::command::{Command, SCmd, spec_command, reply, effect, cview, req_frame};\nuse super::connection::Connection;\nuse super::frame::{self, Frame};"},
     "root_uses": "pub use frame::*;\npub use error::Error;\npub use connection::Connection;\n",
     "extern": ["bytes"],
 }
